@@ -69,6 +69,7 @@ type Enc struct {
 	epochHwm  map[int]Term    // allocation mark at the creation of each heap epoch
 	leafInfo  map[string]leafReg
 	loopEpochs map[int]bool // heap epochs created by loop havocs
+	entryFrames map[int]*entryFrame // heap epochs created by the havoc of a loop with an entry-relative frame
 	mergeEpochs map[int]*mergeEp
 	keepLockEpochs map[int]*mergeEp
 	noLocksAtEntry bool
@@ -77,7 +78,7 @@ type Enc struct {
 }
 
 func NewEnc(db *ContractDB, prog *ssa.Program, pkg *ssa.Package) *Enc {
-	return &Enc{decls: map[string]string{}, funs: map[string]string{}, axiomSet: map[string]bool{}, strConsts: map[string]int{}, typeIDs: map[string]int{}, usedSpecs: map[string]bool{}, db: db, prog: prog, pkg: pkg, assumedUsed: map[string]bool{}, inlinedUsed: map[string]bool{}, havocAllCalls: map[string]bool{}, refLeaf: map[string]int{}, refDone: map[string]bool{}, epochHwm: map[int]Term{}, leafInfo: map[string]leafReg{}, loopEpochs: map[int]bool{}, mergeEpochs: map[int]*mergeEp{}, keepLockEpochs: map[int]*mergeEp{}}
+	return &Enc{decls: map[string]string{}, funs: map[string]string{}, axiomSet: map[string]bool{}, strConsts: map[string]int{}, typeIDs: map[string]int{}, usedSpecs: map[string]bool{}, db: db, prog: prog, pkg: pkg, assumedUsed: map[string]bool{}, inlinedUsed: map[string]bool{}, havocAllCalls: map[string]bool{}, refLeaf: map[string]int{}, refDone: map[string]bool{}, epochHwm: map[int]Term{}, leafInfo: map[string]leafReg{}, loopEpochs: map[int]bool{}, entryFrames: map[int]*entryFrame{}, mergeEpochs: map[int]*mergeEp{}, keepLockEpochs: map[int]*mergeEp{}}
 }
 
 func (e *Enc) declare(name, sort string) Term {
@@ -473,6 +474,9 @@ func (e *Enc) version(name, sort string, ep int) Term {
 	// loop havoc: the loop frame relates this version to the entry version
 	if e.loopEpochs[ep] && e.frameHook != nil {
 		e.frameHook(name, t, sort)
+	}
+	if e.entryFrames[ep] != nil {
+		e.entryFrameAxiom(name, t, sort, ep)
 	}
 	// join of different havoc histories
 	if me, ok := e.mergeEpochs[ep]; ok {
